@@ -121,7 +121,7 @@ func propRegistry() map[string]PropSpec {
 		Explanation: "Bounded symbolic execution of the real server.getCacheMaxAge (go/ssa of /repo's current source) against a short reference model written in the harness (differential oracle). Cache-Control, Age and Set-Cookie values are arbitrary ASCII byte strings up to the stated lengths (the length is case-split, the bytes are SMT variables); the regular expressions are taken from the real regexp.MustCompile literals and encoded as symbolic NFA simulations; strconv.Atoi is an engine intrinsic validated differentially. Every assertion instance is an SMT query (path condition AND NOT assertion) that z3 must answer unsat.",
 		Assumptions: []string{
 			"header bytes are ASCII (0x00-0x7f); non-ASCII bytes in Cache-Control/Age are outside the claim",
-			"Cache-Control joined length <= 13 bytes quick / 16 thorough (one line), 9+9 (two lines); Age <= 3 bytes (9 in the Age harness); longer values, and therefore int64 overflow of the numbers, are outside the claim",
+			"Cache-Control joined length <= 13 bytes quick / 15 thorough (one line), 9+9 (two lines); Age <= 3 bytes (9 in the Age harness); longer values, and therefore int64 overflow of the numbers, are outside the claim",
 			"regexp semantics: leftmost-first, modelled for MatchString (any pattern without word boundaries) and FindStringSubmatch (prefix + one class+ capture); strconv.Atoi modelled per its documented behaviour (sign, digits, saturation)",
 			"oracle = docs/cache-handler.md: Set-Cookie => 0; no Cache-Control => 0; contains no-cache/no-store/private (ASCII case-insensitive) => 0; first s-maxage=<digits> else first max-age=<digits>; minus Age when Age parses as a signed decimal",
 		},
